@@ -86,11 +86,16 @@ fn task(a: &ArrSpec, c: u64, dl: u64, last: u64, maxnp: u64) -> TaskSpec {
 /// Compare one case (over several limits).  Returns (comparisons, nontrivial, mismatches as
 /// (key, what, case)).
 pub fn compare(c0: &UniCase) -> (u64, u64, Vec<(String, String, Value)>) {
+    compare_with(c0, BIG)
+}
+
+/// `big` = the generous divergence limit of the box the case belongs to
+pub fn compare_with(c0: &UniCase, big: u64) -> (u64, u64, Vec<(String, String, Value)>) {
     let mut out = vec![];
     let mut n = 0;
     let mut nontrivial = 0;
     let mut base = c0.clone();
-    base.limit = BIG;
+    base.limit = big;
     let want_big = match catch(|| ref_uni(&base)) {
         Ok(v) => v,
         Err(e) => {
@@ -102,10 +107,10 @@ pub fn compare(c0: &UniCase) -> (u64, u64, Vec<(String, String, Value)>) {
             return (0, 0, out);
         }
     };
-    let mut limits = vec![BIG];
+    let mut limits = vec![big];
     if let Some(r) = want_big {
         for l in [r.saturating_sub(1), r, r + 1, r + 3, 2 * r + 1] {
-            if l <= BIG && !limits.contains(&l) {
+            if l <= big && !limits.contains(&l) {
                 limits.push(l);
             }
         }
@@ -116,7 +121,7 @@ pub fn compare(c0: &UniCase) -> (u64, u64, Vec<(String, String, Value)>) {
     for lim in limits {
         let mut c = c0.clone();
         c.limit = lim;
-        let want = if lim == BIG { want_big } else { ref_uni(&c) };
+        let want = if lim == big { want_big } else { ref_uni(&c) };
         let got = catch(|| run_uni(&c));
         n += 1;
         let tua_c = c.tasks[c.tua].cost.wcet();
@@ -367,6 +372,62 @@ pub fn cases(quick: bool) -> Vec<UniCase> {
     v
 }
 
+pub const BIG_LARGE: u64 = 4000;
+
+/// Systems that are not tiny: four tasks, periods / jitters / costs in the tens and hundreds
+/// (response times spanning several periods of other tasks, busy windows with many jobs of the
+/// analysed task, bursts of three and more).  The comparison costs about a millisecond per case,
+/// so the box is enumerated completely as well.
+pub fn large_cases(quick: bool) -> Vec<UniCase> {
+    let menu: Vec<(u64, u64, u64)> = vec![(10, 0, 2), (15, 25, 3), (20, 0, 5), (50, 120, 7), (7, 0, 1), (100, 0, 12), (30, 30, 1), (12, 40, 2)];
+    let mut v = vec![];
+    let n = menu.len();
+    let nt = if quick { 4 } else { 5 };
+    let mk = |idx: &[usize], dl_mode: u8| -> Vec<TaskSpec> {
+        idx.iter()
+            .map(|k| {
+                let (t, j, c) = menu[*k];
+                let seg = (c + 1) / 2;
+                TaskSpec {
+                    arr: ArrSpec::Sporadic { t, j },
+                    cost: CostSpec::Scalar(c),
+                    deadline: match dl_mode {
+                        0 => t,
+                        1 => 2 * c + 5,
+                        _ => t + j,
+                    },
+                    last_seg: seg,
+                    max_seg: seg,
+                }
+            })
+            .collect()
+    };
+    for i in 0..n.pow(nt as u32) {
+        let idx = crate::props::uni::product_index(i as u64, n, nt);
+        for ana in ALL_ANA {
+            if ana.is_fp() {
+                for tua in [nt - 1, nt - 2] {
+                    for bb in [0u64, 4] {
+                        if bb > 0 && ana == Ana::FpP {
+                            continue;
+                        }
+                        v.push(UniCase { ana, tasks: mk(&idx, 0), tua, blocking: bb, limit: BIG_LARGE });
+                    }
+                }
+            } else if ana == Ana::Fifo {
+                v.push(UniCase { ana, tasks: mk(&idx, 0), tua: 0, blocking: 0, limit: BIG_LARGE });
+            } else {
+                for dl_mode in [0u8, 1, 2] {
+                    for tua in [nt - 1, 0] {
+                        v.push(UniCase { ana, tasks: mk(&idx, dl_mode), tua, blocking: 0, limit: BIG_LARGE });
+                    }
+                }
+            }
+        }
+    }
+    v
+}
+
 pub fn run(ctx: &mut Ctx) -> (String, Value, Vec<String>) {
     crate::util::silence_panics();
     let cs = cases(ctx.quick());
@@ -391,6 +452,28 @@ pub fn run(ctx: &mut Ctx) -> (String, Value, Vec<String>) {
         }
         *per_ana.lock().unwrap().entry(c.ana.name().to_string()).or_insert(0) += k;
     });
+    // the large-parameter box
+    let lc = large_cases(ctx.quick());
+    let ln = AtomicU64::new(0);
+    let lok = AtomicU64::new(0);
+    let lmax = AtomicU64::new(0);
+    lc.par_iter().for_each(|c| {
+        let (k, t, m) = compare_with(c, BIG_LARGE);
+        n.fetch_add(k, Ordering::Relaxed);
+        ln.fetch_add(k, Ordering::Relaxed);
+        nt.fetch_add(t, Ordering::Relaxed);
+        if let Some(r) = catch(|| run_uni(c)).ok().and_then(|o| o.ok()) {
+            lok.fetch_add(1, Ordering::Relaxed);
+            lmax.fetch_max(r, Ordering::Relaxed);
+        }
+        if !m.is_empty() {
+            let mut b = bad.lock().unwrap();
+            if b.len() < 400 {
+                b.extend(m);
+            }
+        }
+        *per_ana.lock().unwrap().entry(c.ana.name().to_string()).or_insert(0) += k;
+    });
     let mut bad = bad.into_inner().unwrap();
     bad.sort_by(|a, b| a.1.len().cmp(&b.1.len()));
     for (k, w, c) in bad {
@@ -405,6 +488,8 @@ pub fn run(ctx: &mut Ctx) -> (String, Value, Vec<String>) {
         "rule": "every (analysis, task set, blocking, segment parameters, deadlines) tuple of the box x limits {60, R-1, R, R+1, R+3, 2R+1} (R = naive result; 7 and 13 when the naive evaluation diverges) is one comparison of the real analysis with the naive all-offset linear-scan evaluator; non-trivial = the naive result exceeds the analysed task's own WCET (divergences are compared too but not counted as non-trivial)",
         "cases": cs.len(),
         "cases_with_ok_result_at_limit_60": okc.load(Ordering::Relaxed),
+        "large_parameter_box": {"rule": "four (thorough: five) sporadic tasks drawn with repetition, in every order, from (T,J,C) in {(10,0,2),(15,25,3),(20,0,5),(50,120,7),(7,0,1),(100,0,12),(30,30,1),(12,40,2)}; FP: tua = last and last-but-one task, blocking 0/4, segments ceil(C/2); EDF: deadlines T / 2C+5 / T+J, tua last and first; FIFO; limits {4000, R-1, R, R+1, R+3, 2R+1}",
+                                "cases": lc.len(), "comparisons": ln.load(Ordering::Relaxed), "cases_with_ok_result": lok.load(Ordering::Relaxed), "largest_ok_result": lmax.load(Ordering::Relaxed)},
         "comparisons_per_analysis": *per_ana.lock().unwrap(),
         "samples": samples,
         "exhaustive": true,
